@@ -602,8 +602,8 @@ impl Prop for C08 {
     }
     fn runs(&self, tier: Tier) -> u64 {
         match tier {
-            Tier::Quick => 120_000,
-            Tier::Thorough => 2_000_000,
+            Tier::Quick => 500_000,
+            Tier::Thorough => 8_000_000,
         }
     }
     fn rule(&self) -> &'static str {
@@ -657,8 +657,8 @@ impl Prop for C09 {
     }
     fn runs(&self, tier: Tier) -> u64 {
         match tier {
-            Tier::Quick => 120_000,
-            Tier::Thorough => 2_000_000,
+            Tier::Quick => 600_000,
+            Tier::Thorough => 10_000_000,
         }
     }
     fn rule(&self) -> &'static str {
@@ -705,8 +705,8 @@ impl Prop for C07 {
     }
     fn runs(&self, tier: Tier) -> u64 {
         match tier {
-            Tier::Quick => 120_000,
-            Tier::Thorough => 2_000_000,
+            Tier::Quick => 600_000,
+            Tier::Thorough => 10_000_000,
         }
     }
     fn rule(&self) -> &'static str {
@@ -754,8 +754,8 @@ impl Prop for C10 {
     }
     fn runs(&self, tier: Tier) -> u64 {
         match tier {
-            Tier::Quick => 60_000,
-            Tier::Thorough => 1_000_000,
+            Tier::Quick => 400_000,
+            Tier::Thorough => 6_000_000,
         }
     }
     fn rule(&self) -> &'static str {
@@ -895,8 +895,8 @@ impl Prop for C18 {
     }
     fn runs(&self, tier: Tier) -> u64 {
         match tier {
-            Tier::Quick => 40_000,
-            Tier::Thorough => 600_000,
+            Tier::Quick => 300_000,
+            Tier::Thorough => 4_000_000,
         }
     }
     fn rule(&self) -> &'static str {
